@@ -47,6 +47,8 @@ type world struct {
 	lyc  uint8
 	t    int64
 	hist []string
+
+	cycles int64
 }
 
 func (w *world) log(s string) {
@@ -85,6 +87,7 @@ func (w *world) expected(p lcdref.Pos, first bool) (vb, st, stMay bool) {
 
 func (w *world) tick() bool {
 	w.m.PPU.EndMachineCycle()
+	w.m.Mem.EndMachineCycle()
 	w.t++
 	iff := w.m.Mem.Read(0xff0f) & 0x03
 	w.m.Mem.Write(0xff0f, 0)
@@ -94,7 +97,10 @@ func (w *world) tick() bool {
 		vb, st, may = w.expected(p, w.ref.N == 1)
 	}
 	gotVB, gotST := iff&1 != 0, iff&2 != 0
-	w.c.Count("cycles", 1)
+	w.cycles++
+	if w.cycles&0xffff == 0 {
+		w.c.Count("cycles", 0x10000)
+	}
 	if vb {
 		w.c.Count("vblank_expected", 1)
 	}
@@ -209,7 +215,8 @@ func run(c *rig.Ctx) {
 		w := newWorld(c, srcs[i%int64(len(srcs))], uint8(r.Intn(154)))
 		frames := c.N(300, 3000)
 		if i == 2 {
-			frames = c.N(300, 66000)
+			// thorough tier: past 2^32 machine cycles (68 emulated minutes) of uninterrupted LCD-on
+			frames = c.N(300, 246000)
 		}
 		for k := int64(0); k < frames*lcdref.FrameLen; k++ {
 			if !w.tick() {
@@ -260,10 +267,13 @@ func run(c *rig.Ctx) {
 			// stores that change nothing the conditions depend on: the same constant LYC again,
 			// anything to the read-only LY, scroll/window/palette registers
 			if i%2 == 1 && r.Chance(1, 400) {
-				a := r.Pick16([]uint16{0xff45, 0xff45, 0xff45, 0xff44, 0xff44, 0xff42, 0xff43, 0xff4a, 0xff4b, 0xff47})
+				a := r.Pick16([]uint16{0xff45, 0xff45, 0xff45, 0xff44, 0xff44, 0xff42, 0xff43, 0xff4a, 0xff4b, 0xff47, 0xff46})
 				v := r.U8()
 				if a == 0xff45 {
 					v = lyc
+				}
+				if a == 0xff46 {
+					v = uint8(0xc0 + r.Intn(0x20))
 				}
 				w.m.Mem.Write(a, v)
 				w.log(fmt.Sprintf("%04X<-%02X", a, v))
